@@ -466,6 +466,7 @@ func C07(c *core.Ctx) {
 	}
 	// quoted strings with unusual contents: empty, blank-only, padded, a lone quote character inside
 	texts = append(texts, quotedStringTexts()...)
+	texts = append(texts, oddJournals()...)
 	texts = append(texts, "\ufeff", "\ufeff\n", "a\ufeffb", "", "\n", "\xff", "#é", "#é\n", "//€ x\n2020-01-01 open Assets:A\n", "#é\nx\n2023-01-01 open Assets:A\n",
 		"2020-01-01 open Assets:"+strings.Repeat("Ab", 60000)+"\n", strings.Repeat("# c\n", 20000), "2020-01-01 \""+strings.Repeat("é", 100000)+"\"\nAssets:A Assets:B 1 CHF\n")
 	seen := map[string]bool{}
